@@ -68,7 +68,15 @@ CAT = {
             dict(chem=1, cut=[0.8])),
     'PYROPE': (_pyrope, dict(chem=0, cut=[0.31], disconnected=True)),
     'P1': (lambda: crystal.Crystal(A([[1., 0.21, 0.17], [0., 1.1, 0.33], [0., 0., 1.23]]), [np.zeros(3), A([0.31, 0.43, 0.57])]),
-           dict(chem=0, cut=[0.95, 1.13], vectorbasis=True, noinversion=True)),
+           dict(chem=0, cut=[0.95, 1.13], vectorbasis=True, note='two like atoms: the midpoint is an inversion centre (P-1)')),
+    # true P1: three like atoms in a triclinic cell, no symmetry at all (every site its own class, NV = 9)
+    'P1_3': (lambda: crystal.Crystal(A([[1., 0.21, 0.17], [0., 1.1, 0.33], [0., 0., 1.23]]),
+                                     [np.zeros(3), A([0.31, 0.43, 0.57]), A([0.68, 0.22, 0.29])]),
+             dict(chem=0, cut=[1.01], vectorbasis=True, noinversion=True)),
+    # orthorhombic Pmmm, general position: 8 sites in one class, site symmetry 1 (NV = 3), site dipoles rotated from site to site
+    'PMMM_G': (lambda: crystal.Crystal(np.diag([1., 1.15, 1.3]),
+                                       [A([sx * 0.11, sy * 0.17, sz * 0.23]) for sx in (1, -1) for sy in (1, -1) for sz in (1, -1)]),
+               dict(chem=0, cut=[0.8], vectorbasis=True)),
     'RUMPLED2': (lambda: crystal.Crystal(A([[2., 0., 0.], [0., 1., 0.], [0., 0., 10.]]), [A([0., 0., 0.]), A([0.5, 0, 0.1])]),
                  dict(chem=0, cut=[1.5], vectorbasis=True)),
     # ---- hosts with interstitial sublattices
@@ -100,6 +108,12 @@ CAT = {
     'KAGOME': (lambda: crystal.Crystal(HEX2, [A([0.5, 0.]), A([0., 0.5]), A([0.5, 0.5])]), dict(chem=0, cut=[0.51, 0.9])),
     'SQ2MM': (lambda: crystal.Crystal(np.eye(2), [[np.zeros(2)], [A([0.5, 0.])] + [A([0., 0.5])]], ['A', 'B']),
               dict(chem=1, cut=[0.72, 1.01], note='B sites have 2mm symmetry')),
+    # 2D p2mm general position: 4 sites in one class, trivial site symmetry (NV = 2)
+    'P2MM_G': (lambda: crystal.Crystal(np.diag([1., 1.2]), [A([sx * 0.13, sy * 0.21]) for sx in (1, -1) for sy in (1, -1)]),
+               dict(chem=0, cut=[0.8], vectorbasis=True)),
+    # 2D p1: three like atoms in an oblique cell
+    'OBL3': (lambda: crystal.Crystal(A([[1., 0.3], [0., 0.9]]), [np.zeros(2), A([0.37, 0.41]), A([0.71, 0.18])]),
+             dict(chem=0, cut=[0.7], vectorbasis=True, noinversion=True)),
     'HEXM': (lambda: crystal.Crystal(HEX2, [[np.zeros(2)], [A([0.6, 0.8]), A([0.2, 0.4]), A([0.8, 0.2]), A([0.4, 0.2]), A([0.2, 0.8]), A([0.8, 0.6])]], ['A', 'B']),
              dict(chem=1, cut=[0.36, 0.45], note='B sites on mirror lines at 30,90,150 degrees', vectorbasis=True)),
 }
